@@ -17,7 +17,7 @@ META = {
         "channel operation, so handlers cannot wait on each other. R4: MCP and CLI reach calculate() with the same "
         "kind of inputs (bundled FX cache, override-aware config). R5: explain_matching derives the tax year with the "
         "same 6-April boundary as TaxPeriod::from_date (comparison-only predicate tabulated over the calendar) and "
-        "find_disposal matches on (date, ticker). Does not decide rmcp's id pairing or liveness at EOF. R5 also: the explaining tool calculates for the tax year derived from the requested date (never the all-years report). R4 also: before the calculation the server refuses only an empty ledger."),
+        "find_disposal matches on (date, ticker). Does not decide rmcp's id pairing or liveness at EOF. R5 also: the explaining tool calculates for the tax year derived from the requested date (never the all-years report). R4 also: before the calculation the server refuses only an empty ledger. R4 also: the report is ordered at the producer (holdings by ticker, disposals by date and ticker, tax years ascending; shared with C16-R4) because the server re-packages the report's fields instead of serialising it whole."),
     "trusted_base": [
         "rmcp 0.11 dispatches each request on its own task and does not catch panics (read in service.rs)",
         "rustc MIR + callee resolution; type facts from rustc's ADT definitions",
@@ -192,12 +192,29 @@ def run(ctx, rep):
                     continue
                 if isinstance(cond, tuple) and cond and cond[0] in ("un", "not") and "is_empty(" in txt and "any(" not in txt:
                     continue
+                # `transactions.len() == 0` on a Vec or on a slice (whose length is pointer metadata in MIR)
+                if isinstance(cond, tuple) and cond and cond[0] in ("cmp", "bin") and len(cond) == 4 and ("int", 0) in (cond[2], cond[3]):
+                    other = cond[3] if cond[2] == ("int", 0) else cond[2]
+                    ot = show(other)
+                    if ot.startswith(("len(", "un(PtrMetadata")) and not any(k in ot for k in ("any(", "filter(", "count(", "position(")):
+                        continue
                 extra.append(txt[:80])
             rep.ob("R4", f"{b.short}:only-empty-refused", not extra, "before the calculation only an empty ledger is refused" if not extra else
                    f"the calculation is reached only under {extra[:2]}: a non-empty ledger the CLI reports on is refused by the server",
                    b.loc(ct["sp"]), key=f"R4:{b.short}:pre-calculation-refusal")
     if n_pre < 1:
         rep.unresolved("R4", "mcp-calculate", "no call of calculate() in the MCP crate")
+    # the server re-packages the report's fields (`json!({"tax_years": .., "holdings": ..})`) instead of serialising the report as a
+    # whole, so its answer equals the CLI's — and depends only on the arguments — only if the report comes ORDERED out of the
+    # calculation: holdings by ticker, disposals by date then ticker, tax years ascending at the producer (shared with C16-R4). An
+    # order applied in a serializer of the whole report is bypassed by the server (seeded change C20-s7).
+    import rules.c16 as c16
+    from core import Report as _Rp
+    r16 = _Rp("tmp")
+    c16.stated_orders(F, r16)
+    for o in r16.obligations:
+        if any(k in o["instance"] for k in ("holdings", "disposals", "tax-years")) and not o["instance"].startswith("format:"):
+            rep.ob("R4", "report-ordered-at-producer:" + o["instance"], o["ok"], o["detail"], o["site"], key="R4:producer-order:" + o["instance"])
     # the explaining tool computes the report of the tax year that contains the requested date: restricted to that year the
     # calculation needs only that year's exemption, so every disposal calculate_report can list can be explained; an all-years
     # calculation (year = None) fails for reasons that have nothing to do with the requested disposal (seeded change C20-s5)
@@ -244,8 +261,7 @@ def run(ctx, rep):
                         clo = x[2][1]
                         if isinstance(clo, tuple) and clo and clo[0] == "closure" and clo[1] in F.bodies:
                             cb = F.bodies[clo[1]]
-                            ct = Terms(F, cb, inline_depth=0)
-                            conds += [ct.operand(cb.term(s_)["discr"]) for s_ in cb.reachable() if cb.term(s_)["k"] == "switch"] + [ct.local(0)]
+                            conds += _pred_conds(F, cb)
         # a lookup returned directly (`…find(|d| …).cloned().ok_or_else(..)`): walk the RECEIVER chain of every return
         # alternative that is neither an explicit Ok(..) (handled above) nor an error, and take the predicate closures of the
         # iterator adapters on it. Only ITERATOR adapters narrow the search; `Option::filter` after `find` gives up on the
@@ -262,8 +278,7 @@ def run(ctx, rep):
                     clo = x[2][1]
                     if isinstance(clo, tuple) and clo and clo[0] == "closure" and clo[1] in F.bodies:
                         cb = F.bodies[clo[1]]
-                        ct = Terms(F, cb, inline_depth=0)
-                        conds += [ct.operand(cb.term(s_)["discr"]) for s_ in cb.reachable() if cb.term(s_)["k"] == "switch"] + [ct.local(0)]
+                        conds += _pred_conds(F, cb)
                 x = x[2][0]
         for c in conds:
             for x in subterms(c):
@@ -278,6 +293,20 @@ def run(ctx, rep):
                else f"disposal lookup compares {sorted(keys)}, the report groups by (date, ticker)", b.loc(), key=f"R5:{b.short}:lookup-key")
     if not fd:
         rep.unresolved("R5", "FIND", "no MCP method returning a Disposal")
+
+
+def _pred_conds(F, cb, depth=2):
+    """the conditions a predicate closure decides on: its own branch conditions and returned value, and those of the same-crate
+    helpers it delegates to (`|d| query.matches(d)` → `d.date == self.date && self.same_ticker(d)`: the left operand of `&&` is a
+    branch, not part of the returned value)"""
+    ct = Terms(F, cb, inline_depth=0)
+    out = [ct.operand(cb.term(s_)["discr"]) for s_ in cb.reachable() if cb.term(s_)["k"] == "switch"] + [ct.local(0)]
+    if depth > 0:
+        for _, u in cb.calls():
+            hb = F.bodies.get(u["callee"])
+            if hb is not None and hb.crate == cb.crate and P.user_written(F, hb) and hb.id != cb.id:
+                out += _pred_conds(F, hb, depth - 1)
+    return out
 
 
 def _await_points(b):
